@@ -6,6 +6,24 @@ NOTES = ('All checks are ./check <id>; each rebuilds a source-only overlay from 
 NOT_CLAIMED = {}
 
 PROPS = {
+    'C02': {
+        'modules': ['contracts.C02_dispatch'],
+        'level': 'proof',
+        'level_text': '_get_responder (route masks sinks/statics; first matching entry of the combined table for arbitrary table length by loop invariant, '
+                      'and lengths 0..3 unrolled with replayable counter-models), LIFO tables as Seq equalities for arbitrary histories (one step + induction), '
+                      'default responders, 405/OPTIONS Allow sets, suffix mapping, route wiring, meta-method guard.',
+        'level_note': 'set_default_responders and map_http_methods are decided by complete path enumeration over representative method subsets (concrete), '
+                      'not for all 2^23 subsets -- stated under not_decided. Matchers and the router are opaque stubs.',
+    },
+    'C05': {
+        'modules': ['contracts.C05_response'],
+        'level': 'proof',
+        'level_text': 'Tails of both App.__call__: WSGI start_response monitor and ASGI send-session monitor (INIT/STARTED/DONE) with send and stream failures '
+                      'at every event, body precedence text>data>stream, Content-Length = len(body) for symbolic text/data, bodiless HEAD/1xx/204/304, '
+                      'typeless 204/304, stream closed exactly once on every exit, for arbitrary filled-in responses; symbolic ASGI status codes.',
+        'level_note': 'WSGI statuses are a representative list (lines, ints, HTTPStatus, custom reason, unknown code). SSE branch and media rendering inside '
+                      'the tails are not decided here (C12 covers render_body media). utf-8 encoding is an uninterpreted function.',
+    },
     'C12': {
         'modules': ['contracts.C12_media'],
         'level': 'proof',
